@@ -52,6 +52,10 @@ func damageGGUF(orig []byte) ([]byte, string) {
 		fallthrough
 	case 0:
 		k := d("truncate-at", len(b))
+		if d("truncate-tiny", 4) == 0 {
+			// shorter than the magic, the fixed header, or empty
+			k = d("truncate-at", 25)
+		}
 		return b[:k], fmt.Sprintf("truncated at %d/%d", k, len(b))
 	case 1:
 		k := d("flip-at", len(b))
@@ -116,7 +120,7 @@ func runGGUFAPI(t *testing.T, tape *verifsim.Tape, prop, tier string, keepLog bo
 					if !answered("POST /api/blobs", r) {
 						return
 					}
-					req := map[string]any{"model": "damaged" + fmt.Sprint(i), "files": map[string]string{"model.gguf": dig}}
+					req := map[string]any{"model": "damaged" + fmt.Sprint(i), "files": map[string]string{[]string{"model.gguf", "model.gguf", "model", "weights.bin"}[d("file-name", 4)]: dig}}
 					if d("stream", 2) == 0 {
 						req["stream"] = false
 					}
